@@ -11,7 +11,7 @@ R3 cross-handler key conflicts: every path that adds an argument to a handler
 from .. import rules
 from ..rules import (callee_is, object_of, field_name, call_args, mentions_field, mentions_call,
                      Wrapper, exempt_edges, loops_in, loop_header, loop_iteration_must_pass,
-                     enclosing_loops)
+                     enclosing_loops, mentions_var)
 from ..facts import children, strip_all_casts, walk, CALL_KINDS, AnalysisBroken
 from .c02 import end_check_targets, usage_atom, r5_unknown
 
@@ -178,6 +178,56 @@ def r3(chk, prog):
                if (field_name(object_of(c)), field_name(call_args(c)[-1])) == p]
         good = bool(hit) and not cfg.must_pass_through(lambda n: n in hit)
         chk.check(good, 'R3', f.name, 'container pair %s x %s compared on every path' % p, f.loc())
+    # ... and each pair is (own container, container OF THE OTHER handler): the object is a member of *this, the
+    # argument a member of the handler that was passed in
+    other_param = f.params[-1]['name']
+    for c in f.calls_to('ArgumentContainer::checkArgMix'):
+        def base_of(e):
+            e = strip_all_casts(e) if e is not None else {}
+            if e.get('k') != 'MemberExpr' or not children(e):
+                return None
+            b = strip_all_casts(children(e)[0])
+            if b.get('k') == 'CXXThisExpr':
+                return 'this'
+            if b.get('k') == 'DeclRefExpr':
+                return b['ref'].get('name')
+            return '?'
+        own_b, oth_b = base_of(object_of(c)), base_of(call_args(c)[-1] if call_args(c) else None)
+        chk.check(own_b == 'this' and oth_b == other_param, 'R3', f.name, 'the comparison is between a container of '
+                  'this handler and a container of the other handler', f.loc(c),
+                  'compares a container of %s with a container of %s' % (own_b, oth_b))
+    # Groups::crossCheckArguments: the modified handler is compared with every member BUT itself, and the call hands
+    # the member of the current iteration to the modified handler
+    g = prog.one('celma::prog_args::Groups', 'crossCheckArguments')
+    mod = g.params[0]['name']
+    from ..rules import implied_edges
+    for loop in loops_in(g):
+        calls = [c for c in walk(loop) if c.get('k') in CALL_KINDS and callee_is(c, 'Handler::crossCheckArguments')]
+        if not calls or loop.get('k') != 'CXXForRangeStmt':
+            continue
+        lv = children(loop)[1]['decls'][0]['name']
+
+        def same_test(x, op):
+            return x.get('k') in ('BinaryOperator', 'CXXOperatorCallExpr') and x.get('op') == op and \
+                mentions_var(x, mod) and mentions_var(x, lv)
+        differ = implied_edges(g, lambda x: same_test(x, '=='), False) | implied_edges(g, lambda x: same_test(x, '!='), True)
+        same = implied_edges(g, lambda x: same_test(x, '=='), True) | implied_edges(g, lambda x: same_test(x, '!='), False)
+        for c in calls:
+            pos = g.cfg.position(c)
+            guarded = any(b in g.cfg.succ[a] and g.cfg.guarded_by_edge(pos, a, g.cfg.succ[a].index(b)) for a, b in differ)
+            # reachable over a 'same handler' edge?
+            seen = set()
+            for a, b in same:
+                seen |= g.cfg.reach((b, 0), lambda p_, e: p_[0] == loop_header(g.cfg, loop))
+            chk.check(guarded and pos not in seen, 'R3', g.name, 'the modified handler is compared with every member '
+                      'but itself', g.loc(c), 'the comparison is %s' % (
+                          'also made with the handler itself' if pos in seen else 'not restricted to the OTHER members'))
+            obj = object_of(c)
+            args = call_args(c)
+            ok = obj is not None and mentions_var(obj, mod) and not mentions_var(obj, lv) and bool(args) and \
+                mentions_var(args[-1], lv) and not mentions_var(args[-1], mod)
+            chk.check(ok, 'R3', g.name, 'the member of the current iteration is handed to the modified handler',
+                      g.loc(c))
     # checkArgMix: nested loops over both containers, == and mismatch both lead to throw
     f = prog.one('celma::prog_args::detail::ArgumentContainer', 'checkArgMix')
     cfg = f.cfg
